@@ -99,7 +99,8 @@ Definition model_ok1 (c : case) : bool :=
 
 Definition spec_ok1 (c : case) : bool :=
   match (if Nat.leb 100 (c_prim c) then c_prim c - 100 else c_prim c) with
-  | 0 => sf_accepts (c_hist c) && complete (c_hist c)
+  | 0 => sf_accepts (c_hist c) && complete (c_hist c) &&
+         (if Nat.leb 100 (c_prim c) then true else sf_forced_ok (c_hist c) [] [])
   | 1 => lc_accepts (c_hist c) && complete (c_hist c)
   | 2 => if Nat.eqb (c_n c) 0 then linearizable_pending (LIM.sstep 0) LIM.init (c_hist c)   (* Borrow blocks for ever *)
          else linearizable (LIM.sstep (c_n c)) LIM.init (c_hist c)
